@@ -329,6 +329,49 @@ def _closed_phasor_net(ctx):
         ctx.ob("R16.4", f"{q}.compute_net_flux[axes={axes},{orient},{mode}]", got is not None and got.equals(want), "net flux == sum over the active axes a of (max face - min face) sums of S_a times the face-area weights of axis a itself (not of the a-th entry of the active list); 'inward' negates, continuous mode halves", got.fmt()[:200] if got is not None else net, want.fmt()[:200])
 
 
+def _all_component_weights(ctx):
+    """place_on_grid of the two plane Poynting detectors with keep_all_components: the three per-axis face-area arrays
+    (extent one along their own normal axis) become one (3, *region) weight array whose entry a is the area array of
+    axis a broadcast over the region — so the all-component record exists and its component a is weighted like the
+    single-component record of propagation axis a."""
+    from ..harness import stub_repo_calls
+
+    ix = ctx.index
+    shape = (2, 3, 1)
+    gst = ((1, 3), (0, 3), (2, 3))
+    planes = [tuple(1 if k == a else n for k, n in enumerate(shape)) for a in range(3)]
+    areas = [arr(f"A{a}", planes[a]) for a in range(3)]
+    for q in ("fdtdx.objects.detectors.poynting_flux.PoyntingFluxDetector", "fdtdx.objects.detectors.poynting_flux.PhasorPoyntingFluxDetector"):
+        ci = ix.cls(q)
+        m = ci.methods.get("place_on_grid")
+        if m is None:
+            raise AnalysisError(f"{q} no longer defines place_on_grid")
+        ctx.unit(m.where())
+        it = ctx.fresh_interp()
+        stub_repo_calls(it, {"_resolve_face_area_weights": lambda it_, a_, k_: areas[a_[2] if len(a_) > 2 else k_.get("axis")]})
+        det = Obj(ci, dict(name="flux", keep_all_components=True, fixed_propagation_axis=None, grid_shape=shape, _grid_slice_tuple=gst, grid_slice_tuple=gst, dtype="complex64", _config=open_obj(None, "config", resolved_grid=Obj(None, {}, "grid"))), "flux")
+        # the base class's placement is not the subject: it returns the detector as it is
+        base = [c for c in ci.mro()[1:] if "place_on_grid" in c.methods]
+        if base:
+            stub_repo_calls(it, {base[0].methods["place_on_grid"].qualname: lambda it_, a_, k_: a_[0]})
+        try:
+            out = it.call_method(det, "place_on_grid", grid_slice_tuple=gst, config=det.attrs["_config"], key=Rat.atom("key"))
+            w = out.attrs.get("_cached_face_area_weights") if isinstance(out, Obj) else None
+            err = None
+        except Raised as r:
+            w, err = None, str(r)
+        ok = isinstance(w, NdArr) and w.shape == (3,) + shape
+        bad = None
+        if ok:
+            for a in range(3):
+                for p in _cells(shape):
+                    got = to_rat(w.data[_flat(w.shape, (a,) + p)])
+                    want = to_rat(areas[a].data[_flat(planes[a], tuple(0 if k == a else i for k, i in enumerate(p)))])
+                    if not got.equals(want):
+                        bad = bad or ((a,) + p, got.fmt()[:80], want.fmt()[:80])
+        ctx.ob("R16.7", f"{q}.place_on_grid[keep_all_components]", ok and bad is None, "with all components kept the weights are a (3, *region) array: entry a is the face-area array of axis a (extent one along a) broadcast over the region; placement does not raise", err or bad or getattr(w, "shape", w), (3,) + shape)
+
+
 def _axis_tables(ctx):
     """propagation_axis: the fixed axis when given (0 included), else the unique size-one axis, else an error."""
     ix = ctx.index
@@ -401,6 +444,7 @@ def run(ctx):
     _weights(ctx)
     _phasor_family_inverse(ctx)
     _closed_phasor_net(ctx)
+    _all_component_weights(ctx)
     if err is not None:
         raise AnalysisError(err)
     ctx.require_count("C16", len(ctx.obligations), 150)
